@@ -16,7 +16,9 @@ RULE = ('messages = neutral text + one or several renderings (12 pattern familie
         "rendering's generated template (regex metacharacters, the four non-ASCII case-fold characters, Unicode "
         'whitespace where the class allows), x masks; plus a malformed stream (unbalanced quotes, nested renderings, '
         'keys inside keys, random pattern-alphabet soup), the same key repeated 2..40 times in one message (same '
-        'and mixed renderings, distinct secrets), single-pattern re.sub requests and non-str messages. '
+        'and mixed renderings, distinct secrets), in-process call sequences (the same message with different masks '
+        'in both orders, a result fed to the next call with another mask, values already equal to a mask, repeats, '
+        'interleaved messages), single-pattern re.sub requests and non-str messages. '
         'Non-trivial: the implementation changed the message (at least one substitution fired); distinct by '
         '(message, mask)')
 TRUSTED_BASE = [
@@ -498,6 +500,76 @@ def gen_outside_domain(rng):
     return ''.join(m)
 
 
+# ------------------------------------------------------------------ call sequences (one process, in order)
+
+SEQ_MASKS = ['***', '???', '#', '%%%%', '@!~', '*', '+++', '$$']      # over the theorems' mask alphabet
+
+
+def with_values(case, source, mask):
+    """The structured rendering case with every value replaced by the text `source` (None: the original secrets)
+    and masked with `mask`: message / expected by construction."""
+    c = json.loads(json.dumps({k: case[k] for k in ('kind', 'pre', 'parts', 'post')}))
+    if source is not None:
+        for p in c['parts']:
+            p['value'] = source
+    c['mask'] = mask
+    return assemble(c)
+
+
+def gen_call_sequence(rng):
+    """In-process call sequences: the same message with different masks in both orders, the output of one call
+    (= the message with every value already equal to a mask) fed to the next call with another mask, repeats,
+    two messages interleaved.  Every step is a complete rendering case, so the expected string of every call is
+    still by construction: mask_password is a function of (message, secret) only."""
+    fam = rng.choice(['remask', 'remask', 'embedded', 'embedded', 'repeat', 'interleave'])
+    a, b, c = rng.sample(SEQ_MASKS, 3)
+    base = gen_rendering_case(rng, strict=True, nparts=rng.choice([1, 1, 2, 3]))
+    if fam == 'remask':
+        plan = [(None, a), (a, a), (a, b), (None, b), (b, a), (a, c), (b, b)]
+        plan = plan[:rng.randrange(3, len(plan) + 1)]
+    elif fam == 'embedded':
+        plan = rng.choice([[(a, a), (a, b), (a, a), (a, c)], [(a, b), (a, a), (a, b)], [(a, a), (a, b)],
+                           [(a, a), (a, a), (a, c), (a, b)]])
+    elif fam == 'repeat':
+        plan = [(None, a), (None, a), (a, a), (a, a), (a, b), (None, a)]
+    else:
+        other = gen_rendering_case(rng, strict=True, nparts=1)
+        steps = []
+        for src, m, which in [(a, a, 0), (b, b, 1), (a, b, 0), (b, a, 1), (None, c, 0), (a, a, 0), (b, c, 1)]:
+            steps.append(with_values(base if which == 0 else other, src, m))
+        return {'kind': 'callseq', 'family': fam, 'steps': steps}
+    return {'kind': 'callseq', 'family': fam, 'steps': [with_values(base, src, m) for src, m in plan]}
+
+
+def fresh_oracle(case, timeout=60):
+    """The oracle's verdict on a stored case in a FRESH interpreter (nothing remembered from this run);
+    'unknown' if that could not be run."""
+    import os
+    import subprocess
+    import sys
+    code = ('import sys, json; sys.path.insert(0, %r); import common; from props import C04; '
+            'print(json.dumps(C04.oracle(json.load(sys.stdin))))' % os.path.dirname(os.path.dirname(__file__)))
+    try:
+        p = subprocess.run([sys.executable, '-c', code], input=json.dumps(case).encode(), stdout=subprocess.PIPE,
+                           stderr=subprocess.PIPE, timeout=timeout)
+        return json.loads([l for l in p.stdout.decode().splitlines() if l.strip()][-1])
+    except Exception:
+        return 'unknown'
+
+
+def shrink_callseq(case):
+    """Fewest calls that still fail in a fresh interpreter; wall-clock bounded."""
+    import time
+    if not fresh_oracle(case):
+        return dict(case, note='fails only after the earlier calls of this run')
+    deadline = time.time() + 45
+
+    def still(sub):
+        return time.time() < deadline and bool(fresh_oracle(dict(case, steps=sub)))
+    steps = common.shrink_list(case['steps'], still, max_steps=25)
+    return dict(case, steps=steps)
+
+
 # ------------------------------------------------------------------ implementation runners
 
 def impl_mask(message, mask):
@@ -615,6 +687,21 @@ def correspondence(ctx):
             ctx.sample({'message': c[1], 'mask': c[2], 'implementation': show(impl)}, 5)
         if impl != rep:
             out.append(Disagreement(case_json(c), show(impl), show(rep)))
+    # call sequences: the model is stateless, so every call of a sequence is compared with the model's answer
+    seqs = [gen_call_sequence(ctx.rng) for _ in range(120 if ctx.quick else 4000)]
+    done = [[impl_mask(st['message'], st['mask']) for st in sq['steps']] for sq in seqs]       # in order, in-process
+    replies = iter(ctx.driver.ask_many([req('mask', hexs(st['message']), hexs(st['mask']))
+                                        for sq in seqs for st in sq['steps']]))
+    for sq, impls in zip(seqs, done):
+        reported = False
+        for i, (st, impl) in enumerate(zip(sq['steps'], impls)):
+            rep = next(replies)
+            ctx.evaluations += 1
+            ctx.count('corr/callseq/' + sq['family'])
+            if impl != rep and not reported:
+                reported = True
+                out.append(Disagreement(dict(sq, steps=sq['steps'][:i + 1]), 'call %d: %r' % (i, show(impl)),
+                                        'call %d: %r' % (i, show(rep))))
     # non-str messages: str() is applied by the code, and by the harness for the model
     lines = [req('mask', hexs(str(m)), hexs('***')) for m in NON_STR]
     for m, rep in zip(NON_STR, ctx.driver.ask_many(lines)):
@@ -648,6 +735,13 @@ def oracle(case):
     """None if the property holds on this case, else a description."""
     mp = strutils().mask_password
     kind = case['kind']
+    if kind == 'callseq':
+        for i, st in enumerate(case['steps']):
+            w = oracle(st)
+            if w:
+                return 'sequence-%s: call %d of the sequence (message %r, mask %r): %s' % (
+                    w.split(':')[0], i, st['message'], st.get('mask', '***'), w)
+        return None
     msg, mask = case['message'], case.get('mask', '***')
     try:
         got = mp(msg, mask)
@@ -738,11 +832,21 @@ def search(ctx, seeds, full=False):
             if k in kinds and len(fails) >= 3:
                 return
             kinds.add(k)
+            if case['kind'] != 'callseq' and fresh_oracle(case) is None:
+                # fails here but not in a fresh interpreter: the result depends on the earlier calls of this run
+                fails.append(Failure(dict(case, note='fails only after the earlier calls of this run'),
+                                     {'kind': 'history-dependent', 'what': why}))
+                return
             small = minimise(case)
-            fails.append(Failure(small, {'kind': k, 'what': oracle(small)}))
+            fails.append(Failure(small, {'kind': k, 'what': oracle(small) or why}))
 
     for s in seeds[:300]:
         check(s)
+    # call sequences first: mask_password must be a function of its two arguments, whatever was masked before
+    for _ in range((1500 if full else 150) if ctx.quick else (20000 if full else 3000)):
+        check(gen_call_sequence(rng))
+        if len(fails) >= 5:
+            return fails + list(known.values())
     n = (60000 if full else 4000) if ctx.quick else (400000 if full else 60000)
     keys = all_keys()
     # every key x form x rendering first (this is where a dropped key or an edited pattern shows)
@@ -772,6 +876,8 @@ def search(ctx, seeds, full=False):
 
 
 def minimise(case):
+    if case['kind'] == 'callseq':
+        return shrink_callseq(case)
     if case['kind'] == 'nokey':
         return shrink_case(case)
     if case['kind'] != 'render' or 'parts' not in case:
@@ -915,6 +1021,18 @@ def replay(ctx, payload):
         print('nothing to replay: this file names the obligation that no longer checks:')
         print(json.dumps(payload.get('no_longer_checks'), indent=1)[:4000])
         return 0
+    if case.get('kind') == 'callseq':
+        bad = 0
+        for i, st in enumerate(case['steps']):
+            why = oracle(st)
+            print('call %d: message %r mask %r' % (i, st['message'], st.get('mask', '***')))
+            print('   expected      :', repr(st.get('expected')))
+            print('   implementation:', repr(show(impl_mask(st['message'], st.get('mask', '***')))))
+            print('   model         :', repr(show(ctx.driver.ask(req('mask', hexs(st['message']),
+                                                                       hexs(st.get('mask', '***')))))))
+            print('   property oracle:', why)
+            bad += bool(why)
+        return 1 if bad else 0
     msg, mask = case['message'], case.get('mask', '***')
     print('message       :', repr(msg))
     print('mask          :', repr(mask))
